@@ -8,6 +8,12 @@ def run(ctx):
     # the known-findings file lists keys under property C14; this driver runs under the id C14P
     ctx.is_known = lambda key: next((f for f in ctx.known.get("findings", []) if f.get("property") == "C14"
                                      and f.get("key") == key and f.get("status") == "open"), None)
+    orig = ctx.violation
+
+    def violation(kind, name, detail, key=None):
+        ctx.log(f"  -> {kind}: {name[:260]} [key={key}]")
+        return orig(kind, name, detail, key=key)
+    ctx.violation = violation
     n = c14_pass.part_passes(ctx)
     ctx.corr["evaluations"] = n
     ctx.corr["distinct_nontrivial"] = n
